@@ -94,8 +94,12 @@ type readerTab struct {
 }
 
 func readerTable(w *World, fn *ssa.Function) readerTab {
+	return readerTableBound(w, fn, nil)
+}
+
+func readerTableBound(w *World, fn *ssa.Function, binds map[*ssa.Parameter]*T) readerTab {
 	rt := readerTab{m: map[string]int64{}, lowered: true}
-	paths, err := w.Paths(fn)
+	paths, err := pathsBound(w, fn, binds)
 	if err != nil {
 		rt.problems = append(rt.problems, err.Error())
 		return rt
@@ -104,6 +108,23 @@ func readerTable(w *World, fn *ssa.Function) readerTab {
 		if p.End != "ret" || len(p.Ret) != 2 {
 			rt.problems = append(rt.problems, "unexpected return shape")
 			continue
+		}
+		// return g(s, consts...): the whole verdict of another reader is passed on
+		if a, b := stripConv(p.Ret[0]), stripConv(p.Ret[1]); a.Op == "ext" && b.Op == "ext" && a.C == 1 && b.C == 2 && a.A[0].Key() == b.A[0].Key() {
+			if g, _, ok := delegated(w, fn, p); ok {
+				gt := readerTableBound(w, g, delegateBinds(g, p))
+				rt.problems = append(rt.problems, gt.problems...)
+				if !gt.lowered && stripConv(a.A[0].A[0]).Op != "call" {
+					rt.lowered = false
+				}
+				for k, v := range gt.m {
+					rt.m[k] = v
+				}
+				if gt.rejects {
+					rt.rejects = true
+				}
+				continue
+			}
 		}
 		var key *Cond
 		for i := range p.Conds {
@@ -124,7 +145,7 @@ func readerTable(w *World, fn *ssa.Function) readerTab {
 		if p.Ret[1].Op == "nil" && !p.Ret[0].IsConst() {
 			// the spelling table of the reader this one delegates to, narrowed by the tests on its result
 			if g, set, ok := delegated(w, fn, p); ok {
-				gt := readerTable(w, g)
+				gt := readerTableBound(w, g, delegateBinds(g, p))
 				rt.problems = append(rt.problems, gt.problems...)
 				lowersHere := stripConv(stripConv(p.Ret[0]).A[0].A[0]).Op == "call"
 				if !gt.lowered && !lowersHere {
@@ -480,12 +501,28 @@ func legal88(op, am, bm string) string {
 
 // retSet: constant first results of a reader's success paths.
 func retSet(w *World, fn *ssa.Function) (uint64, bool) {
-	paths, err := w.Paths(fn)
+	return retSetBound(w, fn, nil)
+}
+
+func retSetBound(w *World, fn *ssa.Function, binds map[*ssa.Parameter]*T) (uint64, bool) {
+	paths, err := pathsBound(w, fn, binds)
 	if err != nil {
 		return 0, false
 	}
 	var s uint64
 	for _, p := range paths {
+		if p.End == "ret" && len(p.Ret) == 2 {
+			if a, b := stripConv(p.Ret[0]), stripConv(p.Ret[1]); a.Op == "ext" && b.Op == "ext" && a.C == 1 && b.C == 2 && a.A[0].Key() == b.A[0].Key() {
+				// return g(s, consts...)
+				if g, _, ok := delegated(w, fn, p); ok {
+					if gs, ok := retSetBound(w, g, delegateBinds(g, p)); ok {
+						s |= gs
+						continue
+					}
+				}
+				return 0, false
+			}
+		}
 		if p.End == "ret" && len(p.Ret) == 2 && p.Ret[1].Op == "nil" {
 			if p.Ret[0].IsConst() {
 				s |= 1 << uint(p.Ret[0].C)
@@ -496,7 +533,7 @@ func retSet(w *World, fn *ssa.Function) (uint64, bool) {
 			if !ok {
 				return 0, false
 			}
-			gs, ok := retSet(w, g)
+			gs, ok := retSetBound(w, g, delegateBinds(g, p))
 			if !ok {
 				return 0, false
 			}
@@ -518,6 +555,37 @@ func funcByKey(w *World, key string) *ssa.Function {
 // delegated: the success path p of reader fn returns the first result of
 // another library reader g applied to fn's own input; set is the refinement
 // the path's tests put on that result.
+// delegateBinds: the constant arguments (beyond the input string) that path p
+// of fn passes to the reader g it delegates to, as parameter bindings.
+func delegateBinds(g *ssa.Function, p *Path) map[*ssa.Parameter]*T {
+	x := stripConv(p.Ret[0])
+	if !(x.Op == "ext" && x.A[0].Op == "call") {
+		return nil
+	}
+	binds := map[*ssa.Parameter]*T{}
+	for i, a := range x.A[0].A {
+		if i == 0 || i >= len(g.Params) {
+			continue
+		}
+		if c := stripConv(a); c.IsConst() || c.Op == "str" {
+			binds[g.Params[i]] = c
+		}
+	}
+	if len(binds) == 0 {
+		return nil
+	}
+	return binds
+}
+
+// pathsBound: the paths of fn with some parameters bound to constants.
+func pathsBound(w *World, fn *ssa.Function, binds map[*ssa.Parameter]*T) ([]*Path, error) {
+	if len(binds) == 0 {
+		return w.Paths(fn)
+	}
+	e := &Explorer{W: w, Fn: fn, MaxPaths: 200000, Bind: binds}
+	return e.Run()
+}
+
 func delegated(w *World, fn *ssa.Function, p *Path) (g *ssa.Function, set uint64, ok bool) {
 	v := p.Ret[0]
 	x := stripConv(v)
